@@ -319,4 +319,55 @@ def Proc.obsTrace (p : Proc) : List ProcOp → List ProcObs
     { sig := op.sig, inp := op.inp
       sink := (match op.outcome with | .ok o _ => some o | _ => none), after := q.snap } :: Proc.obsTrace q ops
 
+/-! ### profiles: `xprocessorhelper.NewProfiles` builds the same consume function **without** an `obsReport`
+(no `recordInOut` call at all), so a profiles payload moves none of the item counters -/
+
+/-- an operation of a processor set: one of the three counted signals, or profiles -/
+inductive XOp
+  | sig (op : ProcOp)
+  | prof (inp : Nat) (outcome : ProcOutcome)
+deriving DecidableEq, Repr
+
+/-- what the caller of `ConsumeProfiles` gets back (same branches as the counted signals) -/
+def profRet : ProcOutcome → ProcRet
+  | .err => .funcErr
+  | .skip => .nil
+  | .ok _ nextErr => if nextErr then .nextErr else .nil
+
+def Proc.consumeX (p : Proc) : XOp → Proc × ProcRet
+  | .sig op => p.consume op
+  | .prof _ o => (p, profRet o)
+
+def Proc.runX (p : Proc) (xs : List XOp) : Proc := xs.foldl (fun q x => (q.consumeX x).1) p
+
+/-- the operations of the counted signals, in order -/
+def sigOps : List XOp → List ProcOp
+  | [] => []
+  | .sig op :: xs => op :: sigOps xs
+  | .prof _ _ :: xs => sigOps xs
+
+/-! ## concurrent receive operations: only the counters after the whole batch are observable -/
+
+/-- executable: after a batch of operations (in whatever order they took effect) every signal's accepted /
+refused counter has grown by exactly what the batch's successful / failed operations of that signal offered -/
+def recvBatchB (before after : Recv) (ops : List RecvOp) : Bool :=
+  Signal.all.all (fun s => after.accepted s == before.accepted s + offeredOk s ops &&
+    after.refused s == before.refused s + offeredErr s ops)
+
+/-! ## scraper cross-balance -/
+
+/-- `Σ_{i<k} f i` -/
+def sumRange : Nat → (Nat → Nat) → Nat
+  | 0, _ => 0
+  | k + 1, f => sumRange k f + f k
+
+/-- everything the scrapers of a history reported as scraped (in the unit `wrapObs*` counts) / everything
+that was kept for the next consumer (in items) -/
+def totalUnits (ts : List Tick) : Nat := sumBy (fun t => sumBy ScrapeRes.scraped t.results) ts
+def totalItems (ts : List Tick) : Nat := sumBy Tick.count ts
+
+/-- every payload's scraped-counter unit is its item count (true by construction for logs: both are
+`LogRecordCount()`; for metrics it says every metric carries exactly one data point) -/
+def UnitsAreItems (ts : List Tick) : Prop := ∀ t ∈ ts, ∀ r ∈ t.results, r.scraped = r.kept
+
 end OtelVerif.C19
